@@ -4,7 +4,7 @@ use crate::comps::*;
 use specs::prelude::*;
 use specs::hibitset::BitSetLike;
 use specs::shrev::ReaderId;
-use specs::storage::{AccessMut, ComponentEvent, GenericWriteStorage, StorageEntry, Tracked};
+use specs::storage::{AccessMut, ComponentEvent, GenericReadStorage, GenericWriteStorage, StorageEntry, Tracked};
 use specs::world::{EntitiesRes, LazyBuilder};
 use std::collections::HashMap;
 use std::panic::{catch_unwind, AssertUnwindSafe};
@@ -112,7 +112,16 @@ fn st_op<T: Tokish>(world: &mut World, xs: &mut St, code: i64, p: &[i64]) -> Out
     match code {
         30 => {
             let mut st = world.write_storage::<T>();
-            match st.insert(e.unwrap(), T::mk(p[2] as u64, p[3])) {
+            let v = T::mk(p[2] as u64, p[3]);
+            let r = match p[1] % 3 {
+                0 => st.insert(e.unwrap(), v),
+                1 => GenericWriteStorage::insert(&mut st, e.unwrap(), v),
+                _ => {
+                    let mut r = &mut st;
+                    GenericWriteStorage::insert(&mut r, e.unwrap(), v)
+                }
+            };
+            match r {
                 Ok(None) => vec![11, 0],
                 Ok(Some(old)) => {
                     let (u, v) = ret(old);
@@ -124,7 +133,13 @@ fn st_op<T: Tokish>(world: &mut World, xs: &mut St, code: i64, p: &[i64]) -> Out
         }
         31 => {
             let st = world.read_storage::<T>();
-            opt_tok(12, st.get(e.unwrap()).map(|t| (t.uid(), t.val())))
+            let by_ref = &st;
+            let r = match p[1] % 3 {
+                0 => st.get(e.unwrap()),
+                1 => GenericReadStorage::get(&st, e.unwrap()),
+                _ => GenericReadStorage::get(&by_ref, e.unwrap()),
+            };
+            opt_tok(12, r.map(|t| (t.uid(), t.val())))
         }
         32 => {
             let mut st = world.write_storage::<T>();
@@ -147,7 +162,28 @@ fn st_op<T: Tokish>(world: &mut World, xs: &mut St, code: i64, p: &[i64]) -> Out
         }
         33 => {
             let mut st = world.write_storage::<T>();
-            opt_tok(12, st.remove(e.unwrap()).map(ret))
+            let e = e.unwrap();
+            match p[1] % 3 {
+                0 => opt_tok(12, st.remove(e).map(ret)),
+                k => {
+                    // through the generic traits (by value / by reference), whose `remove` destroys the value itself:
+                    // it is looked up first and its destruction is taken out of the effects again, so that the
+                    // operation reads like `remove` handing the value back
+                    let old = GenericReadStorage::get(&st, e).map(|t| (t.uid(), t.val()));
+                    if k == 1 {
+                        GenericWriteStorage::remove(&mut st, e);
+                    } else {
+                        let mut r = &mut st;
+                        GenericWriteStorage::remove(&mut r, e);
+                    }
+                    if let Some((u, _)) = old {
+                        if crate::comps::unlog_drop(u) {
+                            crate::comps::note_ret(u);
+                        }
+                    }
+                    opt_tok(12, old)
+                }
+            }
         }
         34 => {
             let st = world.read_storage::<T>();
